@@ -490,6 +490,12 @@ func (c *candidateBase) TypePreference() uint16 {
 			tcpPriorityOffset = c.agent().tcpPriorityOffset
 		}
 
+		// The type preference is unsigned: an offset larger than the
+		// preference saturates at 0 instead of wrapping around.
+		if tcpPriorityOffset > pref {
+			return 0
+		}
+
 		pref -= tcpPriorityOffset
 	}
 
